@@ -250,6 +250,7 @@ func tableScope(r *core.Run, maxSize int) {
 
 func run(r *core.Run) {
 	r.Rule("T-scope: every term of the scope grammar (6 leaves, 12 unary, 11 binary, 2 ternary constructors over let, let*, lambda, funcall, set!, set, progn, if, cond, and, or, flet, labels, user-function call, +, list, debug-print, dotimes, thread-first, assert, not, a closure called twice) up to the node bound, in 3 contexts; " +
+		"T-reenter: 38 forms (thread-first/last with first, second and third steps of 2..6 elements, let, let*, flet, labels, lambda call, funcall, apply, list, cond, and/or, dotimes, quasiquote, handler-bind, map, foldl, assert, format-string, a user macro, set!, if, progn) whose own evaluation recursively re-enters the same source form before using what it was given earlier, recursion depth 0..3, evaluated twice; " +
 		"T-rec: closures created in every iteration of self / mutual / labels / funcall / apply (tail and non-tail) recursion, 5 capture shapes x 3 uses x 0..3 iterations; T-bind: every formals list x every argument list (see bounds); T-app: every covered builtin x every argument tuple over the value alphabet. " +
 		"Each program is rendered to source text and given to both the definitional interpreter (verif/mc/ri) and the real interpreter; value rendering, error condition and stderr transcript must agree. Non-trivial = the reference defines an outcome; distinct by source text")
 	r.Assume("function values are rendered as #<fun> on both sides")
@@ -270,6 +271,9 @@ func run(r *core.Run) {
 	}
 	if only == "appext" { // development aid: the extended application forms alone
 		tableAppExt(r)
+	}
+	if only == "" || only == "rec" || only == "reenter" {
+		tableReenter(r)
 	}
 	if only == "" || only == "rec" {
 		tableRec(r)
